@@ -5,7 +5,12 @@ float-only .tsv file, one call, default row labels' domain: file suffixes, text 
 gzip), Parquet layouts (row groups independent of the scan batch, label dtypes, NaN vs null, dictionary columns, stored
 pandas index), feature columns of every dtype and with awkward names, missing values in the optional key columns,
 caller-named columns next to default-named ones, several files per call, repeated calls, relative paths, direct
-read_percolator calls, zero / one / several hundred rows."""
+read_percolator calls, zero / one / several hundred rows.
+
+R2.19: the ROW chunks of the missing-value scan are modelled.  Every modelled table is sent to the driver entry
+c10.read_rc (Model/PinCols.v pc_read_rc) with the actual CHUNK_SIZE_ROWS_FOR_DROP_COLUMNS, the actual missingness of
+every cell of the written table and the reader kind (text: one empty chunk for a table without rows, Parquet: none);
+only the column-chunk sweep cases that are read in ONE row chunk stay on c10.read (pc_read, told the NaN columns)."""
 import gzip
 import os
 import shutil
@@ -35,6 +40,11 @@ RULE = ("generated PSM tables written as tab-delimited text or Parquet and parse
         "(4) several files in one read_pin call (list/tuple, 2..4 files of different formats, headers and row counts, file "
         "names not in sorted order): dataset k must be the faithful parse of file k; (5) Parquet files carrying a pandas "
         "index (int / string / offset RangeIndex) and zero-row files [known findings]; 1-row and 150..400-row tables. "
+        "(6) row chunks of the missing-value scan: 2..14 rows read in chunks of 1..rows, missing cells only in the first / "
+        "a middle / the last row chunk or one per chunk, feature counts that leave a column slice of identifier columns only "
+        "or an identifier slice whose features are all incomplete, text and Parquet; row-chunk size 0 (ValueError). "
+        "Model entry: c10.read_rc (row-chunk size, per-cell missingness, reader kind) for every modelled table except the "
+        "sweep cases read in one row chunk (c10.read). "
         "Every second case of a run is written to one shared path (the file is replaced). The property oracle is part of "
         "the verdict of every case (same()), the model is compared on all but the 'oracle only' cases. distinct = distinct "
         "case; non-trivial = table has >=1 NaN column, or >=1 optional/level column, or feature count >= c, or >1 file")
@@ -42,7 +52,12 @@ ASSUMPTIONS = [
     "column names are ASCII; str.lower modelled for A-Z only",
     "cell values are opaque to the model (mapped to integer ids by the harness); pandas/pyarrow (de)serialisation is an oracle "
     "(cell values are chosen so that text round-trips exactly: halves/quarters, integers, plain words)",
-    "row-chunked NaN scan is modelled as 'column contains a NaN' (row chunk size varied only on the implementation side)",
+    "row chunks of the NaN scan: the model is given the row-chunk size and one missingness bit per cell (None in the generated "
+    "table); the readers' chunk iterators are oracles with the contract 'rows[i:i+c] for i in range(0, n, c); for n = 0 one empty "
+    "chunk (pandas.read_csv) or none (pyarrow iter_batches)' (by C10_rc_any_partition any other partition into >= 1 batches gives "
+    "the same result); a row-chunk size above the number of rows is passed to the model as rows + 1 (C10_rc_large; nat is unary)",
+    "column-chunk size 0 raises ZeroDivisionError in read_percolator; the model's error type has no such constructor (EValue): "
+    "not generated",
     "a Parquet file that stores a pandas index column holds that column under the name __index_level_0__ (schema name); the "
     "property is read as: it is an ordinary non-reserved column",
     "PYTHONHASHSEED is fixed per run (set iteration order inside the NaN scan is not varied within a run)",
@@ -540,7 +555,74 @@ def gen(ctx):
         c = _table(rng, rng.randint(1, 25), rng.choice([4, 19]), nrows=n, tags=("layout", "rows>=150"))
         c["rowchunk"] = rng.choice([7, 64, 100, n // 2, n - 1, 2000000])
         cases.append(_vary(rng, c))
+    # (6) the row chunks of the missing-value scan (R2.19)
+    rng = ctx.sub("rowchunks")
+    for k in range(240 if ctx.thorough else 40):
+        cases.append(_rowchunk_case(rng, k))
+    for k in range(12 if ctx.thorough else 4):
+        c = _table(rng, rng.randint(0, 6), rng.choice([2, 19]), nrows=rng.randint(1, 5), fmt=["tsv", "parquet"][k % 2],
+                   tags=("rowchunks", "rowchunk=0"))
+        c["rowchunk"] = 0
+        cases.append(c)
+    for c in cases:
+        if c["fn"] == "read" and c.get("model") is not False:
+            c["tags"].append("model=" + _entry(c))
     return cases
+
+
+def _rowchunk_case(rng, k):
+    """several row chunks; missing cells confined to chosen row chunks; column slices that consist of identifier columns only
+    or whose features are all incomplete"""
+    opt = rng.choice([[], ["expmass"], ["filename", "expmass"], ["filename", "ret_time", "expmass"]])
+    nid = len(opt) + 2
+    cs = rng.choice([2, 3, 4, 5, 19])
+    shape = ["ids-only-slice", "ids-slice-all-nan", "any"][k % 3]
+    if shape == "ids-only-slice":
+        # (nfeat + nid) % cs in 1..nid-1: the identifier columns get a chunk of their own
+        cand = [f for f in range(0, 3 * cs + 1) if 0 < (f + nid) % cs < nid]
+        nfeat = rng.choice(cand) if cand else rng.randint(0, 8)
+    elif shape == "ids-slice-all-nan":
+        cand = [f for f in range(1, 3 * cs + 1) if ((f + nid) % cs or cs) > nid]
+        nfeat = rng.choice(cand) if cand else rng.randint(1, 8)
+    else:
+        nfeat = rng.randint(0, 12)
+    n = rng.randint(2, 14)
+    c = _table(rng, nfeat, cs, opt=list(opt), levels=[], nrows=n, nan="none", shuffle=False,
+               fmt=rng.choice(["tsv", "parquet"]), tags=("rowchunks", shape))
+    c["tags"] = [t for t in c["tags"] if not t.startswith("nan=")]
+    for x in [y for y in c["cols"] if y.lower().startswith("charge")]:      # keep the slice arithmetic exact
+        c["cols"].remove(x)
+        del c["data"][x]
+    rc = rng.choice([1, 1, 2, 3, max(1, n // 2), max(1, n - 1)])
+    c["rowchunk"] = rc
+    nchunks = (n + rc - 1) // rc
+    feats = [x for x in c["cols"] if x.startswith("feat")]
+    if shape == "ids-slice-all-nan":
+        last = ((nfeat + nid) % cs or cs) - nid          # features that share the slice of the identifier columns
+        victims = feats[len(feats) - last:] if rng.random() < 0.7 else feats
+    else:
+        victims = rng.sample(feats, rng.randint(0, min(4, len(feats)))) if feats else []
+    where = rng.choice(["first", "middle", "last", "each", "scattered"])
+    for j, x in enumerate(victims):
+        if where == "first":
+            ch = [0]
+        elif where == "last":
+            ch = [nchunks - 1]
+        elif where == "middle":
+            ch = [nchunks // 2]
+        elif where == "each":
+            ch = [j % nchunks]
+        else:
+            ch = rng.sample(range(nchunks), rng.randint(1, nchunks))
+        for q in ch:
+            lo, hi = q * rc, min(n, (q + 1) * rc)
+            for r in rng.sample(range(lo, hi), rng.randint(1, hi - lo)):
+                c["data"][x][r] = None
+    c["tags"] += ["nan=" + ("none" if not victims else "several"), "nan-chunk=" + where, "rowchunks=%d" % min(nchunks, 4)]
+    if c["fmt"] == "parquet":
+        c["pq"] = {"row_group": rng.choice([1, 2, 3, max(1, n - 1), n + 1]), "label_dtype": None,
+                   "nan_not_null": rng.random() < 0.3, "categorical": False, "index": None}
+    return c
 
 
 # ----------------------------------------------------------------------------- model side
@@ -568,11 +650,22 @@ def _key(v):
     return "s" + str(v)
 
 
+def _entry(c):
+    """which model a table is compared with: the column-chunk sweep read in ONE row chunk stays on pc_read (told the NaN
+    columns), everything else goes to pc_read_rc (row-chunk size + missingness of every cell)"""
+    n = _nrows(c)
+    if "sweep" in c.get("tags", ()) and n >= 1 and c["rowchunk"] >= n:
+        return "read"
+    return "read_rc"
+
+
 def encode(c):
     if c["fn"] == "chunks":
         return "c10.chunks %s %s %s" % (lib.lst(range(c["n"])), lib.lst(range(1000, 1000 + c["k"])), lib.z(c["cs"]))
     if c.get("model") is False:
         return "c10.chunks 0 0 b1"        # not modelled (label cell that is no number): property oracle only
+    if _entry(c) == "read_rc":
+        return _encode_rc(c)
     cols = c["cols"]
     uo = c.get("user_opts", {})
     opts = [uo.get(k) for k in ("filename_column", "calcmass_column", "expmass_column", "rt_column", "charge_column")]
@@ -593,6 +686,28 @@ def encode(c):
     return "c10.read %s %s %s %s %s %s" % (
         lib.z(c["cs"]), lib.lst(cols, lib.s), " ".join(lib.opt(o, lib.s) for o in opts),
         lib.b(label_is_bool), lib.lst(rows, lambda r: lib.lst(r)), lib.lst(nan_cols, lib.s))
+
+
+def _encode_rc(c):
+    cols = c["cols"]
+    uo = c.get("user_opts", {})
+    opts = [uo.get(k) for k in ("filename_column", "calcmass_column", "expmass_column", "rt_column", "charge_column")]
+    cm = _cellmap(c)
+    n = _nrows(c)
+    rows = []
+    for r in range(n):
+        cells, bits = [], []
+        for col in cols:
+            v = c["data"][col][r]
+            bits.append(v is None)
+            cells.append((int(v) if v is not None else 0) if col.lower() == "label" else cm[col][_key(v)])
+        rows.append((cells, bits))
+    # the text readers yield one empty chunk for a table without rows, the Parquet reader none
+    empty_chunk = c["fmt"] != "parquet"
+    rowchunk = min(c["rowchunk"], n + 1)        # C10_rc_large: every size >= n gives the same single chunk
+    return "c10.read_rc %s %s %s %s %s %s %s" % (
+        lib.b(empty_chunk), lib.z(rowchunk), lib.z(c["cs"]), lib.lst(cols, lib.s), " ".join(lib.opt(o, lib.s) for o in opts),
+        lib.b(c["label_enc"] == "bool"), lib.lst(rows, lambda rm: lib.lst(rm[0]) + " " + lib.lst(rm[1], lib.b)))
 
 
 def decode(c, t):
@@ -903,6 +1018,8 @@ def _table_failure(c, i, with_index=True):
         return None if i[0] == "err" else f"table accepted although {why}"
     if not _wellformed(c):
         return None
+    if c.get("rowchunk") == 0:
+        return None           # not a configuration the property speaks about: the model comparison decides (ValueError)
     if i[0] != "ok":
         return f"well-formed table rejected: {i!r}"
     r = i[1]
@@ -993,7 +1110,9 @@ def finding_key(c, m, i):
         if "index" in _problems(c, m, i) and not _problems(c, m, i, with_index=False):
             return K_PQ_INDEX
         return None
-    if _nrows(c) == 0 and i == ("err", "ValueError") and _wellformed(c) and (m is None or m[0] == "ok"):
+    # (the row-chunk model follows the code here: no row chunk, pd.concat([]) fails; C10_rc_no_chunk)
+    if _nrows(c) == 0 and i == ("err", "ValueError") and _wellformed(c) and \
+            (m is None or m[0] == "ok" or (m[0] == "err" and m[1] == "ValueError")):
         return K_PQ_EMPTY
     return None
 
